@@ -118,6 +118,20 @@ def make_env(tokens, style="subclass"):
     ns = {ATTRS[k]: v for k, v in tokens.items()}
     if style == "subclass":
         return type("TokEnv", (jsonpath.JSONPathEnvironment,), ns)()
+    if style == "rules-recompiled":
+        # the lexer's rule table rebuilt after construction (what a Lexer subclass that changes a pattern, or a caller
+        # who renames a token on the instance, does): once and twice
+        env = type("TokEnv", (jsonpath.JSONPathEnvironment,), ns)()
+        env.lexer.rules = env.lexer.compile_rules()
+        env.lexer.rules = env.lexer.compile_rules()
+        return env
+    if style == "renamed-on-the-instance":
+        env = jsonpath.JSONPathEnvironment()
+        for k, v in ns.items():
+            setattr(env, k, v)
+        env.lexer = env.lexer_class(env=env)
+        env.parser = env.parser_class(env=env)
+        return env
     if not _INST:
         class InstEnv(jsonpath.JSONPathEnvironment):
             def __init__(self, **spellings):
@@ -173,7 +187,7 @@ def check_case(ctx, tokens, comp, doc, texts=None, style=None):
 
     r = ctx.rng
     ctx.evaluation()
-    style = style or ("instance" if r.random() < 0.3 else "subclass")
+    style = style or r.choice(["instance", "instance", "rules-recompiled", "renamed-on-the-instance"] + ["subclass"] * 6)
     env = make_env(tokens, style)
     ctx.cell("environment_construction", style)
     seed = r.random()
